@@ -10,8 +10,18 @@
 (* the only geometric input; it tells a well-defined "away" direction from a   *)
 (* degenerate (flat / collinear) one.                                          *)
 (*                                                                             *)
-(* Actions = public calls: Load (build a molecule), AddH (one call of          *)
-(* add_implicit_hydrogens() on all atoms).  AddH is parameterised by what was  *)
+(* Actions = public calls: Load (build a molecule), Query (the neighbour /     *)
+(* valence accessors bonds_with_atom, connected_atoms, bonded_valence,         *)
+(* n_bonds_with_atom: no effect, answers follow the CURRENT bonds), Rewire     *)
+(* (a bond deleted and another appended: an edit that keeps the number of      *)
+(* bonds), Edited (any other public edit: the molecule is taken as it now is), *)
+(* AddH (one call of add_implicit_hydrogens() on all atoms): a molecule has a  *)
+(* HISTORY, and AddH must answer for the graph as it is when it is called.     *)
+(* `seen` records that some accessor was used since the last edit (an          *)
+(* implementation may cache what it computed then; the replay visits every     *)
+(* edit from seen and from unseen states); `memo` = the bonds as they were     *)
+(* then (bookkeeping; only deviation StaleAdjacency reads it: an atom->bonds   *)
+(* table revalidated by the NUMBER of bonds only).  AddH is parameterised by what was  *)
 (* MEASURED on the hydrogens that appeared (`hs`): bonded centre, distance to  *)
 (* it (uA), finiteness, 1000*cos of the angle between centre->H and            *)
 (* centre->centroid(existing neighbours), type of the new bond, atom record.   *)
@@ -23,10 +33,11 @@ CONSTANTS Envs,         \* local environments offered to Build (model checking /
           Deviations,
           TolD,         \* uA : |H-centre| may differ from the sum of covalent radii by at most this
           CosAway,      \* 1e-3: "pointing away" = 1000*cos <= -CosAway ; "towards" = 1000*cos >= CosAway
-          OffMin        \* mA : neighbours' centroid (plane) closer to the atom than this = degenerate geometry
-VARIABLES atoms, hints, off, bonds, phase, last
-vars == <<atoms, hints, off, bonds, phase, last>>
-sv   == <<atoms, hints, off, bonds, phase>>
+          OffMin,       \* mA : neighbours' centroid (plane) closer to the atom than this = degenerate geometry
+          AllowEdit     \* BOOLEAN: Query / Rewire part of Next (model checking of histories on a small table)
+VARIABLES atoms, hints, off, bonds, phase, seen, memo, last
+vars == <<atoms, hints, off, bonds, phase, seen, memo, last>>
+sv   == <<atoms, hints, off, bonds, phase, seen, memo>>
 
 Abs(x)    == IF x < 0 THEN -x ELSE x
 Max(a, b) == IF a > b THEN a ELSE b
@@ -73,7 +84,8 @@ CountImpl(i) ==
   LET a == atoms[i]
       e == ValenceElectrons(a.el) - (IF "ChargeSign" \in Deviations THEN -a.fc ELSE a.fc)
                                   - (IF "SpinIgnored" \in Deviations THEN 0 ELSE Abs(a.sp))
-      b == IF "FloorValence" \in Deviations THEN FloorValence(bonds, i) ELSE CeilValence(bonds, i)
+      bs == IF "StaleAdjacency" \in Deviations /\ seen /\ Len(memo) = Len(bonds) THEN memo ELSE bonds
+      b == IF "FloorValence" \in Deviations THEN FloorValence(bs, i) ELSE CeilValence(bs, i)
       f == Max(0, (IF "OffByOne" \in Deviations THEN 3 ELSE 4) - Abs(4 - e) - b)
       n == IF hints[i] >= 0 /\ "HintIgnored" \notin Deviations THEN hints[i] ELSE f
   IN IF ~IsCentre(atoms, i) THEN 0
@@ -97,14 +109,39 @@ Admitted(i, h) ==
        /\ NNbr(bonds, i) > 0 => h.cos = (IF "TowardNeighbours" \in Deviations THEN 1000 ELSE -1000)
 BondAdmitted(bt) == IF "HBondOrderZero" \in Deviations THEN bt = "Dummy" ELSE Order2(bt) = 2
 
-Init == /\ atoms = <<>> /\ hints = <<>> /\ off = <<>> /\ bonds = <<>> /\ phase = "empty"
-        /\ last = [act |-> "init"]
+Init == /\ atoms = <<>> /\ hints = <<>> /\ off = <<>> /\ bonds = <<>> /\ phase = "empty" /\ seen = FALSE
+        /\ memo = <<>> /\ last = [act |-> "init"]
 
 Load(as, hs, of, bs) ==
   /\ phase = "empty"
   /\ Len(hs) = Len(as) /\ Len(of) = Len(as)
   /\ \A k \in DOMAIN bs : bs[k].a \in DOMAIN as /\ bs[k].b \in DOMAIN as
-  /\ atoms' = as /\ hints' = hs /\ off' = of /\ bonds' = bs /\ phase' = "built"
+  /\ atoms' = as /\ hints' = hs /\ off' = of /\ bonds' = bs /\ phase' = "built" /\ seen' = FALSE /\ memo' = <<>>
+
+(* the molecule was changed through other public calls (del_atom, new_atom, connect, remove_substituent, a bond's *)
+(* a1/a2 re-pointed, ...): what those do is not C16's business, HAdd takes the graph as it now is                 *)
+Edited(as, hs, of, bs) ==
+  /\ phase # "empty"
+  /\ Len(hs) = Len(as) /\ Len(of) = Len(as)
+  /\ \A k \in DOMAIN bs : bs[k].a \in DOMAIN as /\ bs[k].b \in DOMAIN as
+  /\ atoms' = as /\ hints' = hs /\ off' = of /\ bonds' = bs /\ phase' = "built" /\ seen' = FALSE /\ memo' = <<>>
+
+(* neighbour / valence accessors: answers from the current bonds, nothing changes *)
+NbrSet(bs, i) == {Other(bs[k], i) : k \in BondsAt(bs, i)}
+Query(i) ==
+  /\ phase # "empty" /\ i \in DOMAIN atoms
+  /\ seen' = TRUE /\ memo' = (IF seen THEN memo ELSE bonds) /\ UNCHANGED <<atoms, hints, off, bonds, phase>>
+  /\ last' = [act |-> "query", out |-> "ok", i |-> i, nb |-> NbrSet(bonds, i), n |-> NNbr(bonds, i), bv2 |-> SumOrd2(bonds, i, 1)]
+
+(* bond k taken off atom `from` and put on atom j instead: del_bond + connect.  The number of bonds stays. *)
+RemoveAt(s, k) == SubSeq(s, 1, k - 1) \o SubSeq(s, k + 1, Len(s))
+Rewire(k, j) ==
+  /\ phase = "built" /\ k \in DOMAIN bonds /\ j \in DOMAIN atoms
+  /\ j # bonds[k].a /\ j # bonds[k].b
+  /\ ~\E m \in DOMAIN bonds : Touches(bonds[m], j) /\ Touches(bonds[m], bonds[k].b)      \* no double bond record
+  /\ bonds' = RemoveAt(bonds, k) \o <<[a |-> j, b |-> bonds[k].b, bt |-> bonds[k].bt]>>
+  /\ phase' = "edited" /\ UNCHANGED <<atoms, hints, off, seen, memo>>
+  /\ last' = [act |-> "rewire", out |-> "ok", k |-> k, j |-> j]
 
 (* one local environment of the case table: a centre with 0..3 neighbours *)
 EnvAtom(el, fc, sp, i) == [el |-> el, fc |-> fc, sp |-> sp, ty |-> "reg", pos |-> i, q |-> i]
@@ -123,7 +160,7 @@ Class(i, h) == [c   |-> i,
                         ELSE IF h.cos >= CosAway THEN "toward" ELSE "perp"]
 
 AddH(hs) ==
-  /\ phase \in {"built", "called"}
+  /\ phase \in {"built", "edited", "called"}
   /\ phase = "called" => NoHints           \* the property says nothing about a second call on a hinted drawing
   /\ LET cs == Centres
          n0 == Len(atoms)
@@ -140,7 +177,8 @@ AddH(hs) ==
                                       THEN <<[a |-> (cs[1] % n0) + 1, b |-> n0 + 1, bt |-> "Single"]>> ELSE <<>>)
         /\ hints' = hints \o [k \in DOMAIN hs |-> -1]
         /\ off' = off \o [k \in DOMAIN hs |-> 0]
-        /\ last' = [act |-> "addh", n |-> Len(hs), hs |-> hs, cls |-> [k \in DOMAIN hs |-> Class(cs[k], hs[k])]]
+        /\ seen' = TRUE /\ memo' = bonds'                  \* the call itself looks at neighbours
+        /\ last' = [act |-> "addh", out |-> "ok", n |-> Len(hs), hs |-> hs, cls |-> [k \in DOMAIN hs |-> Class(cs[k], hs[k])]]
   /\ phase' = "called"
 
 (* the placement the model itself produces (model checking): ideal unless a deviation says otherwise *)
@@ -154,8 +192,12 @@ ModelPlacement ==
       d   |-> BondLen(atoms[cs[k]].el) + (IF "WrongLength" \in Deviations THEN 10 * TolD ELSE 0),
       cos |-> IF NNbr(bonds, cs[k]) = 0 THEN 0 ELSE IF "TowardNeighbours" \in Deviations THEN 1000 ELSE -1000]]
 
+MQuery(i)     == AllowEdit /\ phase \in {"built", "edited"} /\ Query(i)       \* histories before the calls (small table)
+MRewire(k, j) == AllowEdit /\ Rewire(k, j)
 Next == \/ \E e \in Envs : Build(e)
         \/ AddH(ModelPlacement)
+        \/ \E i \in DOMAIN atoms : MQuery(i)
+        \/ \E k \in DOMAIN bonds, j \in DOMAIN atoms : MRewire(k, j)
 Spec == Init /\ [][Next]_vars
 
 (* ----- the clauses of C16 --------------------------------------------------------------------- *)
@@ -188,7 +230,12 @@ PlacedRight ==
 Idempotent == [][(IsCall /\ phase = "called") => (atoms' = atoms /\ bonds' = bonds)]_vars
 ValenceComplete == (phase = "called" /\ NoHints) =>
                       \A i \in DOMAIN atoms : Count(atoms, hints, bonds, i) = 0
-TypeOK == /\ phase \in {"empty", "built", "called"}
+(* the accessors answer for the present bonds (graph-theoretic definition) *)
+QueryRight ==
+  [][last'.act = "query" =>
+        /\ last'.nb = {j \in DOMAIN atoms : \E k \in DOMAIN bonds : Touches(bonds[k], last'.i) /\ Other(bonds[k], last'.i) = j}
+        /\ last'.n = Cardinality({k \in DOMAIN bonds : Touches(bonds[k], last'.i)})]_vars
+TypeOK == /\ phase \in {"empty", "built", "edited", "called"} /\ seen \in BOOLEAN
           /\ Len(hints) = Len(atoms) /\ Len(off) = Len(atoms)
           /\ \A k \in DOMAIN bonds : bonds[k].a \in DOMAIN atoms /\ bonds[k].b \in DOMAIN atoms
 =============================================================================
